@@ -30,8 +30,9 @@ DIFF = ["Easy", "Medium", "Hard", "Expert"]
 
 
 def instr_diff():
-    import chartparse.instrument as I
-    return [m.value for m in I.Instrument], [m.value for m in I.Difficulty]
+    """The DOCUMENTED instrument and difficulty names (Moonscraper's section names), not the ones read back from the implementation:
+    a misspelt enum value must show as a section that is no longer routed."""
+    return list(INSTR), list(DIFF)
 
 
 def render(secs, nl):
@@ -48,6 +49,7 @@ UNKNOWN_TAGS = ["Foo", "ExpertSingleBackup", "HardDrumsOld", "x y", "Expert Sing
 UNKNOWN_BODIES = [
     [], ["  0 = N 0 0", "  10 = N 1 0"], ["[Events]", '  100 = E "section Bogus"'], ["[ExpertSingle]", "  100 = N 0 0", "  200 = N 1 0"], ["[Song]", "  Resolution = 1"],
     ["  {", "  }", " }", "{ "], ["[v2]"], ["garbage", "", "  "], ["  Name = \"x\"", "  0 = B 1"], ["[SyncTrack]", "  0 = B 60000"],
+    ["~ tilde", "}}", "歌 = x", "} trailing"], ["}x", "{x", "|", "\x7f"],
 ]
 
 
@@ -131,8 +133,18 @@ def make_case(base_secs, variant, tmpdir):
             for d in dvals:
                 if tag == d + i:
                     keys.append((i, d))
-    aux = "(%s, %s, %s, %s)" % (out0, coq_list(coq_str(t) for _, t, _ in variant.get("unknown", [])),
-                                coq_list("(%s, %s)" % (coq_str(i), coq_str(d)) for i, d in keys), coq_bool(bool(variant.get("remove")) or damage is not None))
+    def n_events(tag, body):
+        if tag == "Song":
+            return 0
+        if tag in ("SyncTrack", "Events"):
+            return len(body)
+        return len({l.split(" = ")[0].strip() for l in body if " = N " in l}) + sum(1 for l in body if " = S " in l or " = E " in l)
+    last = {}
+    for tag, body in base_secs:
+        last[tag] = body          # a section written twice denotes its later copy
+    n_ev = sum(n_events(t, b) for t, b in last.items())
+    aux = "(%s, %s, %s, %s, %s)" % (out0, coq_list(coq_str(t) for _, t, _ in variant.get("unknown", [])),
+                                    coq_list("(%s, %s)" % (coq_str(i), coq_str(d)) for i, d in keys), coq_bool(bool(variant.get("remove")) or damage is not None), coq_Z(n_ev))
     if variant["by_path"]:
         # by path the model starts from the BYTES of the file (utf-8-sig codec, universal newlines)
         inp = "(%s, None)" % coq_list("%d%%N" % b for b in file_bytes(text, variant["bom"], damage))
